@@ -44,3 +44,29 @@ PROPS["C14"] = {
         H("c14_hasher_binary_3", "c14_hasher", "quick", 300, "binary mode identity", HASHER, "L=3"),
     ],
 }
+
+# ------------------------------------------------------------------------------------------------
+CODEC = ["types::PacketLength::{try_from_reader,to_writer_new,fixed_encoding_len}",
+         "packet::PacketHeader::{try_from_reader,from_parts,to_writer,write_len,tag,packet_length}",
+         "types::PacketHeaderVersion::{write_header,header_len}", "types::Tag::{from,into}"]
+C17_CODEC = [
+    H("c17_len_fixed_roundtrip", "c17_codec", "quick", 600, "every u32 length: writer == RFC 4.2.1 reference, size query, parse inverts", CODEC, "len: full u32"),
+    H("c17_len_partial_roundtrip", "c17_codec", "quick", 300, "Partial(2^e), e in 0..=30", CODEC, "e: 0..=30"),
+    H("c17_len_parse_total", "c17_codec", "quick", 600, "every 5-octet string: parser == RFC decoder incl. octets consumed", CODEC, "5 arbitrary octets"),
+    H("c17_len_parse_truncated", "c17_codec", "quick", 600, "truncated length field => error", CODEC, "5 arbitrary octets cut at 0..4"),
+    H("c17_header_new_roundtrip", "c17_codec", "quick", 900, "new-format header for every tag<64 and u32 length vs reference", CODEC, "tag 0..63, len full u32"),
+    H("c17_header_old_roundtrip", "c17_codec", "quick", 900, "legacy header for every tag<16 and u32 length vs reference", CODEC, "tag 0..15, len full u32"),
+    H("c17_header_parse_total", "c17_codec", "quick", 900, "every 6-octet string: header parser == RFC decoder; reserialise/parse; canonical identity", CODEC, "6 arbitrary octets"),
+    H("c17_header_from_parts_rules", "c17_codec", "quick", 600, "illegal header/length combinations refused", CODEC, "tag 0..63, value full u32"),
+]
+PROPS["C17"] = {
+    "inject": [("src/lib.rs", "c17_codec")],
+    "mem_gb": 10,
+    "level_text": "Bounded model checking of the real framing code: header/length codecs are decided for every u32 length, "
+                  "every tag and both formats against an independent RFC 9580 4.2 encoder/decoder.",
+    "level_note": "Codecs: no bound beyond the types. Error-message formatting stubbed. Kani/CBMC trusted.",
+    "bounds": "codecs: full u32 lengths, tags 0..63, both header formats",
+    "outside": "see DESIGN.md C17",
+    "assumptions": [FMT_STUBS],
+    "harnesses": list(C17_CODEC),
+}
